@@ -1,1 +1,247 @@
-(* Model/Sparse.v -- stub, to be filled in *)
+(* Model/Sparse.v -- src/sparse.rs lines 1-300 (everything except the solve_* methods) over any Arith.
+   Storage as the code stores it: the six public fields of compressed-sparse-column form.
+   Every guard is a [Panic Guard] in the place and order of the code, every Vec/Vector/Matrix index
+   goes through [rd]/[upd]/[mset] (Panic Index), every usize subtraction through [usub]
+   (Panic Underflow, debug profile).  Definitions only: no proofs, no heavy imports.
+
+   Modelled semantics of std (trusted, see driver/c06.py TRUSTED):
+   * [Vec::sort_by_key] is a *stable* sort; the result of a stable sort is unique, and the stable
+     insertion sort [sort_by_col] below computes it.
+   * [Vec::drain(..)] in a [for] loop visits the elements in order.
+   Notes on evaluation order: where the code evaluates several index expressions in one statement
+   (e.g. [result[row_index[k]] += val[k] * xj]) every one of them can only raise an index panic, so
+   the order in which the model performs the reads cannot change the panic class; the values are
+   combined exactly as written ([old + val[k] * xj]). *)
+From Coq Require Import List Arith Bool.
+From OV Require Import Base.Panic Base.Arith Model.Vector Model.Matrix.
+Import ListNotations.
+Local Open Scope arith_scope.
+Local Open Scope bool_scope.
+
+(* ---- small control-flow helpers (Base/ is frozen; these are definitions only) ---- *)
+
+(* for x in list { s = f s x } *)
+Fixpoint foldM {S X} (f : S -> X -> res S) (l : list X) (s : S) : res S :=
+  match l with
+  | [] => Ok s
+  | x :: t => let* s' := f s x in foldM f t s'
+  end.
+
+(* for k in lo..lo+n { if let Some r = body k { return Some r } }  None   (early return) *)
+Fixpoint find_from {X} (n lo : nat) (body : nat -> res (option X)) : res (option X) :=
+  match n with
+  | 0 => Ok None
+  | S n' => let* o := body lo in
+            match o with
+            | Some x => Ok (Some x)
+            | None => find_from n' (S lo) body
+            end
+  end.
+Definition for_find {X} (lo hi : nat) (body : nat -> res (option X)) : res (option X) :=
+  find_from (hi - lo) lo body.
+
+(* for j in 0..ncols { let p = pre j; for k in cs[j]..cs[j+1] { s = body j p k s } }
+   -- the column walk shared by multiply, transpose_multiply, transpose, to_triplets, to_dense *)
+Definition for_cols {S P} (cs : list nat) (ncols : nat) (pre : nat -> res P)
+           (body : nat -> P -> nat -> S -> res S) (s : S) : res S :=
+  for_ 0 ncols (fun j acc =>
+    let* p := pre j in
+    let* a := rd cs j in
+    let* b := rd cs (j + 1) in
+    for_ a b (body j p) acc) s.
+
+Section Sp.
+Context {A : Arith}.
+Notation T := (T A).
+
+(* pub struct Sparse<T> { rows, cols, nonzero, val, row_index, col_start }   (sparse.rs:7-14) *)
+Record sparse := mkS {
+  sp_rows : nat; sp_cols : nat; sp_nonzero : nat;
+  sp_val : list T; sp_row_index : list nat; sp_col_start : list nat }.
+
+(* (row, col, value) *)
+Definition triplet : Type := (nat * nat * T)%type.
+Definition trow (t : triplet) : nat := fst (fst t).
+Definition tcol (t : triplet) : nat := snd (fst t).
+Definition tval (t : triplet) : T := snd t.
+
+(* from_vecs (sparse.rs:30-42): nonzero = col_start[col_start.len() - 1] *)
+Definition sp_from_vecs (r c : nat) (v : list T) (ri cs : list nat) : res sparse :=
+  let* l1 := usub (length cs) 1 in
+  let* nz := rd cs l1 in
+  Ok (mkS r c nz v ri cs).
+
+(* triplets.sort_by_key(|t| t.1): the stable sort by column *)
+Fixpoint ins_by_col (t : triplet) (l : list triplet) : list triplet :=
+  match l with
+  | [] => [t]
+  | u :: r => if tcol t <=? tcol u then t :: u :: r else u :: ins_by_col t r
+  end.
+Definition sort_by_col (l : list triplet) : list triplet := fold_right ins_by_col [] l.
+
+(* col_start_from_index (sparse.rs:112-127): counting pass, then exclusive prefix sums *)
+Definition sp_col_start_from_index (s : sparse) (ci : list nat) : res (list nat) :=
+  let* cnt := for_ 0 (sp_nonzero s) (fun n cs =>
+                let* c := rd ci n in
+                let* x := rd cs c in
+                upd cs c (x + 1)%nat) (repeat 0 (sp_cols s + 1)) in
+  let* st := for_ 0 (sp_cols s) (fun k (st : list nat * nat) =>
+                let* ck := rd (fst st) k in
+                let* cs' := upd (fst st) k (snd st) in
+                Ok (cs', (snd st + ck)%nat)) (cnt, 0) in
+  upd (fst st) (sp_cols s) (snd st).
+
+(* the drain loop of from_triplets: both range guards per triplet, in sorted order (sparse.rs:53-62) *)
+Record drained := mkD { d_ri : list nat; d_ci : list nat; d_val : list T; d_nz : nat }.
+Definition drain_step (r c : nat) (d : drained) (t : triplet) : res drained :=
+  if r <=? trow t then Panic Guard else
+  if c <=? tcol t then Panic Guard else
+  Ok (mkD (d_ri d ++ [trow t]) (d_ci d ++ [tcol t]) (d_val d ++ [tval t]) (d_nz d + 1)).
+
+(* from_triplets (sparse.rs:45-73) *)
+Definition sp_from_triplets (r c : nat) (ts : list triplet) : res sparse :=
+  let* d := foldM (drain_step r c) (sort_by_col ts) (mkD [] [] [] 0) in
+  let s := mkS r c (d_nz d) (d_val d) (d_ri d) (repeat 0 (c + 1)) in
+  let* cs := sp_col_start_from_index s (d_ci d) in
+  Ok (mkS r c (d_nz d) (d_val d) (d_ri d) cs).
+
+(* col_index (sparse.rs:76-90): expansion of the column starts; the local [gaps] vector is written
+   and read at the same in-range index only, so it is not modelled as storage *)
+Definition sp_col_index (s : sparse) : res (list nat) :=
+  if sp_nonzero s =? 0 then Ok [] else
+  if length (sp_col_start s) <? sp_cols s + 1 then Panic Guard else
+  let* ng := usub (length (sp_col_start s)) 1 in
+  for_ 0 ng (fun k temp =>
+    let* hi := rd (sp_col_start s) (k + 1) in
+    let* lo := rd (sp_col_start s) k in
+    let* g := usub hi lo in
+    Ok (temp ++ repeat k g)) [].
+
+(* the scan shared by get and insert: first k < nonzero with row_index[k] == row && col_index[k] == col
+   (&& short-circuits: col_index[k] is read only when the row matches) *)
+Definition sp_scan (s : sparse) (ci : list nat) (row col : nat) : res (option nat) :=
+  for_find 0 (sp_nonzero s) (fun k =>
+    let* r := rd (sp_row_index s) k in
+    if r =? row then
+      let* c := rd ci k in
+      if c =? col then Ok (Some k) else Ok None
+    else Ok None).
+
+(* get (sparse.rs:93-108) *)
+Definition sp_get (s : sparse) (row col : nat) : res (option T) :=
+  if sp_rows s <=? row then Panic Guard else
+  if sp_cols s <=? col then Panic Guard else
+  if length (sp_col_start s) <=? col then Panic Guard else
+  let* ci := sp_col_index s in
+  let* hit := sp_scan s ci row col in
+  match hit with
+  | Some k => let* v := rd (sp_val s) k in Ok (Some v)
+  | None => Ok None
+  end.
+
+(* scale (sparse.rs:174-178) *)
+Definition sp_scale (s : sparse) (value : T) : res sparse :=
+  let* v := for_ 0 (sp_nonzero s) (fun k v => let* x := rd v k in upd v k (x * value)) (sp_val s) in
+  Ok (mkS (sp_rows s) (sp_cols s) (sp_nonzero s) v (sp_row_index s) (sp_col_start s)).
+
+(* multiply (sparse.rs:181-193): column-oriented scatter *)
+Definition sp_mul (s : sparse) (x : list T) : res (list T) :=
+  if negb (sp_cols s =? length x) then Panic Guard else
+  for_cols (sp_col_start s) (sp_cols s) (fun j => rd x j)
+    (fun j xj k res =>
+       let* r := rd (sp_row_index s) k in
+       let* v := rd (sp_val s) k in
+       let* old := rd res r in
+       upd res r (old + v * xj))
+    (repeat zero (sp_rows s)).
+
+(* transpose_multiply (sparse.rs:196-208): column-oriented gather *)
+Definition sp_tmul (s : sparse) (x : list T) : res (list T) :=
+  if negb (sp_rows s =? length x) then Panic Guard else
+  for_cols (sp_col_start s) (sp_cols s) (fun _ => Ok tt)
+    (fun i _ k res =>
+       let* v := rd (sp_val s) k in
+       let* r := rd (sp_row_index s) k in
+       let* xr := rd x r in
+       let* old := rd res i in
+       upd res i (old + v * xr))
+    (repeat zero (sp_cols s)).
+
+(* transpose (sparse.rs:211-233): count the rows, prefix sums, scatter with a running count *)
+Record tstate := mkTS { t_ri : list nat; t_val : list T; t_count : list nat }.
+Definition sp_transpose (s : sparse) : res sparse :=
+  let cs := sp_col_start s in
+  let* count := for_cols cs (sp_cols s) (fun _ => Ok tt)
+      (fun _ _ j count =>
+         let* r := rd (sp_row_index s) j in
+         let* c := rd count r in
+         upd count r (c + 1)%nat)
+      (repeat 0 (sp_rows s)) in
+  let* at_cs := for_ 0 (sp_rows s) (fun j acs =>
+         let* a := rd acs j in
+         let* c := rd count j in
+         upd acs (j + 1) (a + c)%nat) (repeat 0 (sp_rows s + 1)) in
+  let* st := for_cols cs (sp_cols s) (fun _ => Ok tt)
+      (fun i _ j st =>
+         let* k := rd (sp_row_index s) j in
+         let* a := rd at_cs k in
+         let* c := rd (t_count st) k in
+         let index := (a + c)%nat in
+         let* ri' := upd (t_ri st) index i in
+         let* v := rd (sp_val s) j in
+         let* val' := upd (t_val st) index v in
+         let* count' := upd (t_count st) k (c + 1)%nat in
+         Ok (mkTS ri' val' count'))
+      (mkTS (repeat 0 (sp_nonzero s)) (repeat zero (sp_nonzero s)) (repeat 0 (sp_rows s))) in
+  Ok (mkS (sp_cols s) (sp_rows s) (sp_nonzero s) (t_val st) (t_ri st) at_cs).
+
+(* to_triplets (sparse.rs:260-268) *)
+Definition sp_to_triplets (s : sparse) : res (list triplet) :=
+  for_cols (sp_col_start s) (sp_cols s) (fun _ => Ok tt)
+    (fun j _ k acc =>
+       let* r := rd (sp_row_index s) k in
+       let* v := rd (sp_val s) k in
+       Ok (acc ++ [(r, j, v)]))
+    [].
+
+(* insert (sparse.rs:272-289): overwrite the first matching entry, else rebuild from the triplets *)
+Definition sp_insert (s : sparse) (row col : nat) (value : T) : res sparse :=
+  if sp_rows s <=? row then Panic Guard else
+  if sp_cols s <=? col then Panic Guard else
+  if length (sp_col_start s) <=? col then Panic Guard else
+  let* ci := sp_col_index s in
+  let* hit := sp_scan s ci row col in
+  match hit with
+  | Some k =>
+      let* v := upd (sp_val s) k value in
+      Ok (mkS (sp_rows s) (sp_cols s) (sp_nonzero s) v (sp_row_index s) (sp_col_start s))
+  | None =>
+      let* ts := sp_to_triplets s in
+      sp_from_triplets (sp_rows s) (sp_cols s) (ts ++ [(row, col, value)])
+  end.
+
+(* to_dense (sparse.rs:292-300): Matrix::new(rows, cols, 0), then dense[(row_index[k], j)] = val[k]
+   through the flat row-major IndexMut of Matrix (a later duplicate overwrites an earlier one) *)
+Definition sp_to_dense (s : sparse) : res (matrix A) :=
+  for_cols (sp_col_start s) (sp_cols s) (fun _ => Ok tt)
+    (fun j _ k d =>
+       let* v := rd (sp_val s) k in
+       let* r := rd (sp_row_index s) k in
+       mset d r j v)
+    (mat_new (sp_rows s) (sp_cols s) zero).
+
+(* ---- histories of modifying operations (C06: "all finite sequences of insert/overwrite/scale/transpose") ---- *)
+Inductive sop := SInsert (i j : nat) (v : T) | SScale (v : T) | STranspose.
+Definition sp_step (s : sparse) (o : sop) : res sparse :=
+  match o with
+  | SInsert i j v => sp_insert s i j v
+  | SScale v => sp_scale s v
+  | STranspose => sp_transpose s
+  end.
+Definition sp_run (ops : list sop) (s : sparse) : res sparse := foldM sp_step ops s.
+
+End Sp.
+
+Arguments sparse A : clear implicits.
+Arguments triplet A : clear implicits.
+Arguments sop A : clear implicits.
